@@ -1,0 +1,14 @@
+//go:build verif
+
+package cache
+
+// VerifFailpoint, when set by the verification harness, is called at each step
+// of Store with the step's name; the harness uses it to kill the process (a
+// crash at that point) or to record the step.
+var VerifFailpoint func(step string)
+
+func failpoint(step string) {
+	if VerifFailpoint != nil {
+		VerifFailpoint(step)
+	}
+}
